@@ -1083,12 +1083,18 @@ class InsertAxis(Array):
         return insertaxis(derivative(self.func, var, seen), self.ndim-1, self.length)
 
     def _sum(self, i):
-        if i == self.ndim - 1:
-            return self.func if self.dtype == bool else self.func * astype(self.length, self.func.dtype)
-        return InsertAxis(sum(self.func, i), self.length)
+        if i != self.ndim - 1:
+            return InsertAxis(sum(self.func, i), self.length)
+        elif self.dtype != bool:
+            return self.func * astype(self.length, self.func.dtype)
+        elif self.length._intbounds[0] > 0: # any over an empty axis is False
+            return self.func
 
     def _product(self):
-        return self.func if self.dtype == bool else self.func**astype(self.length, self.func.dtype)
+        if self.dtype != bool:
+            return self.func**astype(self.length, self.func.dtype)
+        elif self.length._intbounds[0] > 0: # all over an empty axis is True
+            return self.func
 
     def _power(self, n):
         unaligned1, unaligned2, where = unalign(self, n)
